@@ -137,7 +137,7 @@ thread_local! {
 static HOOK: Once = Once::new();
 
 /// Logical work budget of one guarded call (interval operations + enumerated values)
-pub static WORK_BUDGET: std::sync::atomic::AtomicU64 = std::sync::atomic::AtomicU64::new(20_000_000);
+pub static WORK_BUDGET: std::sync::atomic::AtomicU64 = std::sync::atomic::AtomicU64::new(2_000_000_000);
 
 pub fn install_panic_hook() {
     HOOK.call_once(|| {
@@ -220,6 +220,8 @@ pub fn isolated<T: Send>(f: impl FnOnce() -> T + Send) -> Result<T, PanicInfo> {
 /// Normalise a panic message into signature material: digits and quoted material removed.
 pub fn normalise_message(msg: &str) -> String {
     let first = msg.lines().next().unwrap_or("");
+    // quoted material (names, values of the failing input) is not part of the signature
+    let first = first.split('"').next().unwrap_or(first);
     let mut out = String::new();
     let mut last_hash = false;
     for c in first.chars().take(120) {
